@@ -48,6 +48,9 @@ pub enum Stmt {
 pub enum Item {
     Orig(i32),
     Break,
+    /// A label followed by `.break` instead of a statement: both mark the next statement (or the
+    /// word after the last one, where the loader puts the final HALT).
+    LabelBreak(String),
     Stmt { label: Option<String>, stmt: Stmt },
     End,
 }
@@ -238,6 +241,13 @@ pub fn encode(p: &Program) -> Verdict {
                 orig = Some(*v as u16);
             }
             Item::Break => breaks.push(idx as u16),
+            Item::LabelBreak(l) => {
+                if labels.iter().any(|(n, _)| n == l) {
+                    return Verdict::Reject(format!("label {} defined twice", l));
+                }
+                labels.push((l.clone(), idx));
+                breaks.push(idx as u16);
+            }
             Item::Stmt { label, stmt } => {
                 if let Some(l) = label {
                     if labels.iter().any(|(n, _)| n == l) {
@@ -639,6 +649,15 @@ pub fn render(p: &Program, lay: &Layout, rng: &mut Rng) -> Rendered {
                 text.push_str(&lit(*v, lay.lit, rng));
             }
             Item::Break => text.push_str(&kw(".break", w, rng)),
+            Item::LabelBreak(l) => {
+                text.push_str(l);
+                if w {
+                    text.push_str(rng.s(&[" ", ": ", ":", "\t", ":\n", "\n", " \n\t"]));
+                } else {
+                    text.push(' ');
+                }
+                text.push_str(&kw(".break", w, rng));
+            }
             Item::End => text.push_str(&kw(".end", w, rng)),
             Item::Stmt { label, stmt } => {
                 if let Some(l) = label {
